@@ -680,8 +680,11 @@ where
                     m.glwe_encrypt_sk(&mut ct, &pt, &skp, &enc, &mut Source::new(seed32(c.seed, 3)), &mut Source::new(seed32(c.seed, 4)), big.borrow());
                     let bytes = m.glwe_decrypt_tmp_bytes(&lay);
                     three_runs::<B, _>(c, opn, bytes, |s, fill| {
-                        let mut out = GLWEPlaintext::alloc(Degree(n as u32), Base2K(b as u32), TorusPrecision(k as u32));
-                        for (j, l) in gen_column(VClass::Uniform, b, n, out.data.size(), fill).iter().enumerate() {
+                        // the receiving plaintext may have another radix and precision than the ciphertext
+                        let ob = c.rb as usize;
+                        let osize = 1 + (c.idx as usize % (size + 2));
+                        let mut out = GLWEPlaintext::alloc(Degree(n as u32), Base2K(ob as u32), TorusPrecision((osize * ob) as u32));
+                        for (j, l) in gen_column(VClass::Uniform, ob, n, out.data.size(), fill).iter().enumerate() {
                             out.data.at_mut(0, j).copy_from_slice(l);
                         }
                         m.glwe_decrypt(&ct, &mut out, &skp, s);
@@ -711,12 +714,14 @@ where
                         m.lwe_encrypt_sk(&mut ct, &lpt, &sk1, &lenc, &mut Source::new(seed32(c.seed, 3)), &mut Source::new(seed32(c.seed, 4)), big.borrow());
                         let bytes = m.lwe_decrypt_tmp_bytes(&llay);
                         three_runs::<B, _>(c, opn, bytes, |s, fill| {
-                            let mut out = LWEPlaintext::alloc(Base2K(b as u32), TorusPrecision(k as u32));
-                            for j in 0..size {
+                            let ob = c.rb as usize;
+                            let osize = 1 + (c.idx as usize % (size + 2));
+                            let mut out = LWEPlaintext::alloc(Base2K(ob as u32), TorusPrecision((osize * ob) as u32));
+                            for j in 0..osize {
                                 out.data_mut().at_mut(0, j)[0] = (fill as i64 + j as i64) % 7;
                             }
                             m.lwe_decrypt(&ct, &mut out, &sk1, s);
-                            (0..size).map(|j| out.data().at(0, j)[0]).collect()
+                            (0..osize).map(|j| out.data().at(0, j)[0]).collect()
                         })
                     }
                 }
